@@ -194,7 +194,17 @@ static json table_observe(ev2::engine_library& lib, const json& a)
     o["info"] = guarded([&] {
         auto i = lib.information().get();
         return json{{"id", i.id}, {"uuid", i.uuid}, {"maj", i.schema_version_major},
-                    {"min", i.schema_version_minor}, {"pat", i.schema_version_patch}};
+                    {"min", i.schema_version_minor}, {"pat", i.schema_version_patch},
+                    {"played", i.current_played_indicator}, {"rb", i.last_rekord_box_library_import_read_counter}};
+    });
+    o["change_log"] = guarded([&] {
+        json rows = json::array();
+        for (auto& r : lib.change_log().all()) rows.push_back(json::array({r.id, r.track_id}));
+        return rows;
+    });
+    o["change_log_last"] = guarded([&] {
+        auto r = lib.change_log().last();
+        return r ? json::array({r->id, r->track_id}) : json(nullptr);
     });
     std::vector<int64_t> tids, pids;
     o["track_ids"] = guarded([&] {
@@ -282,8 +292,8 @@ bool dispatch_table(State& st, const std::string& op, const json& a, json& ret)
         ret = st.schema_name;
         return true;
     }
-    if (op.rfind("trk_", 0) != 0 && op.rfind("pl_", 0) != 0 && op.rfind("pe_", 0) != 0 &&
-        op != "info_get" && op != "table_observe" && op != "lib_schema")
+    if (op.rfind("trk_", 0) != 0 && op.rfind("pl_", 0) != 0 && op.rfind("pe_", 0) != 0 && op.rfind("info_", 0) != 0 &&
+        op.rfind("cl_", 0) != 0 && op != "table_observe" && op != "lib_schema")
         return false;
     if (!st.lib) throw harness_error("no engine_library for table op");
     auto& lib = *st.lib;
@@ -302,6 +312,36 @@ bool dispatch_table(State& st, const std::string& op, const json& a, json& ret)
         auto i = lib.information().get();
         ret = {{"id", i.id}, {"uuid", i.uuid}, {"maj", i.schema_version_major},
                {"min", i.schema_version_minor}, {"pat", i.schema_version_patch}};
+        return true;
+    }
+    if (op == "info_get_full")
+    {
+        auto i = lib.information().get();
+        ret = {{"id", i.id}, {"uuid", i.uuid}, {"maj", i.schema_version_major}, {"min", i.schema_version_minor},
+               {"pat", i.schema_version_patch}, {"played", i.current_played_indicator},
+               {"rb", i.last_rekord_box_library_import_read_counter}};
+        return true;
+    }
+    if (op == "info_set_played")
+    {
+        lib.information().update_current_played_indicator(a.at("value").get<int64_t>());
+        ret = true;
+        return true;
+    }
+    if (op == "cl_all" || op == "cl_after" || op == "cl_last")
+    {
+        auto cl = lib.change_log();
+        json rows = json::array();
+        if (op == "cl_all")
+            for (auto& r : cl.all()) rows.push_back(json::array({r.id, r.track_id}));
+        else if (op == "cl_after")
+            for (auto& r : cl.after(a.at("id").get<int64_t>())) rows.push_back(json::array({r.id, r.track_id}));
+        else
+        {
+            auto r = cl.last();
+            if (r) rows.push_back(json::array({r->id, r->track_id}));
+        }
+        ret = rows;
         return true;
     }
     auto tt = lib.track();
